@@ -15,6 +15,13 @@
     D <outcome>                the answer for every other id (must be present once)
     E <H name> dir             a sub-directory
     E <H name> f:<H content> <0|1>   a regular file; the flag says Go's net.ParseIP accepts the name as IPv6 text
+    ipsweepi <spec'>                                   -> ok <seg> | <seg> …  or  inadmissible <seg> | …
+        one pass of cleanupIP over SEVERAL directories interleaved with environment moves; <spec'> = R / D as above and
+          DIR                      start of the next directory        NODIR   a missing directory
+          E …                      entry of the current directory
+          M <k> w <dir> <H name> <H content> <0|1>    during the k-th inspect call: write that file
+          M <k> x <dir> <H name>                      during the k-th inspect call: delete that file
+        <seg> = remaining names of one directory, sorted (`~` for a missing directory)
   anything else -> bad-op
 -/
 import Galaxy.Model.Gc
@@ -92,6 +99,52 @@ def parseSpec : List String → Spec → Option Spec
     parseSpec rest { s with dir := s.dir ++ [⟨n, .file c, b⟩] }
   | _, _ => none
 
+structure SpecI where
+  rt : List (String × InspectOutcome) := []
+  dflt : Option InspectOutcome := none
+  fs : FS := []
+  moves : List (Nat × EnvMove) := []
+
+def addEntry (fs : FS) (e : Entry) : Option FS :=
+  match fs.reverse with
+  | some d :: rest => some (rest.reverse ++ [some (d ++ [e])])
+  | _ => none
+
+def parseSpecI : List String → SpecI → Option SpecI
+  | [], s => some s
+  | "R" :: cid :: o :: rest, s => do
+    let c ← unH cid
+    let o' ← parseOutcome o
+    parseSpecI rest { s with rt := s.rt ++ [(c, o')] }
+  | "D" :: o :: rest, s => do
+    let o' ← parseOutcome o
+    if s.dflt.isSome then none else parseSpecI rest { s with dflt := some o' }
+  | "DIR" :: rest, s => parseSpecI rest { s with fs := s.fs ++ [some []] }
+  | "NODIR" :: rest, s => parseSpecI rest { s with fs := s.fs ++ [none] }
+  | "E" :: name :: "dir" :: rest, s => do
+    let n ← unH name
+    let fs ← addEntry s.fs ⟨n, .dir, false⟩
+    parseSpecI rest { s with fs := fs }
+  | "M" :: k :: "w" :: d :: name :: content :: flag :: rest, s => do
+    let k' ← k.toNat?
+    let d' ← d.toNat?
+    let n ← unH name
+    let c ← unH content
+    let b ← if flag = "1" then some true else if flag = "0" then some false else none
+    parseSpecI rest { s with moves := s.moves ++ [(k', .write d' n c b)] }
+  | "M" :: k :: "x" :: d :: name :: rest, s => do
+    let k' ← k.toNat?
+    let d' ← d.toNat?
+    let n ← unH name
+    parseSpecI rest { s with moves := s.moves ++ [(k', .delete d' n)] }
+  | "E" :: name :: f :: flag :: rest, s => do
+    let n ← unH name
+    let c ← if f.startsWith "f:" then unH (f.drop 2).toString else none
+    let b ← if flag = "1" then some true else if flag = "0" then some false else none
+    let fs ← addEntry s.fs ⟨n, .file c, b⟩
+    parseSpecI rest { s with fs := fs }
+  | _, _ => none
+
 def Spec.runtime (s : Spec) (d : InspectOutcome) : Runtime := fun cid =>
   match s.rt.find? (fun p => p.1 == cid) with
   | some p => p.2
@@ -99,6 +152,10 @@ def Spec.runtime (s : Spec) (d : InspectOutcome) : Runtime := fun cid =>
 
 def showNames (l : List String) : String :=
   String.intercalate " " ((l.mergeSort (fun a b => !decide (b < a))).map toH)
+
+def showSeg : Option Dir → String
+  | none => "~"
+  | some d => showNames (d.map (·.name))
 
 def step (_ : Unit) (line : String) : Unit × String :=
   let out : String :=
@@ -112,6 +169,20 @@ def step (_ : Unit) (line : String) : Unit × String :=
       | some s =>
         match s.dflt with
         | some d => ("ok " ++ showNames ((sweepIPDir (s.runtime d) s.dir).map (·.name))).trimAsciiEnd.toString
+        | none => "bad-op"
+      | none => "bad-op"
+    | "ipsweepi" :: rest =>
+      match parseSpecI rest {} with
+      | some s =>
+        match s.dflt with
+        | some d =>
+          let rt : Runtime := fun cid =>
+            match s.rt.find? (fun p => p.1 == cid) with
+            | some p => p.2
+            | none => d
+          let sched : Nat → List EnvMove := fun k => (s.moves.filter (fun m => m.1 == k)).map (·.2)
+          let st := sweepIPDirsI rt sched s.fs
+          (if st.inadmissible then "inadmissible " else "ok ") ++ String.intercalate " | " (st.fs.map showSeg)
         | none => "bad-op"
       | none => "bad-op"
     | "gcsweep" :: rest =>
